@@ -268,7 +268,7 @@ class Canon:
             return None
         for e in st.iter.elts:
             vals = [e] if isinstance(tg, ast.Name) else (list(e.elts) if isinstance(e, (ast.Tuple, ast.List)) else None)
-            if vals is None or not all(_alias_expr(v) or isinstance(v, ast.Lambda) for v in vals):
+            if vals is None or not all(_row_value(v) for v in vals):
                 return None
         return body[0].test, inner[:-1]
 
@@ -326,7 +326,7 @@ class Canon:
             subst = {}
             pre = []
             for nm, v in zip(names, vals):
-                if _alias_expr(v) or isinstance(v, ast.Lambda):
+                if _row_value(v):
                     subst[nm] = v
                 else:
                     pre.append(_loc(ast.Assign([ast.Name(nm, ast.Store())], copy.deepcopy(v)), st))
@@ -477,6 +477,9 @@ class _ExprNorm(ast.NodeTransformer):
         # dict(k=v, ..) == {"k": v, ..}
         if isinstance(f, ast.Name) and f.id == "dict" and not node.args and node.keywords and all(k.arg is not None for k in node.keywords):
             return ast.copy_location(ast.Dict([ast.Constant(k.arg) for k in node.keywords], [k.value for k in node.keywords]), node)
+        # list(<generator expression>) == [<list comprehension>]
+        if isinstance(f, ast.Name) and f.id == "list" and len(node.args) == 1 and not node.keywords and isinstance(node.args[0], ast.GeneratorExp):
+            return ast.copy_location(ast.ListComp(node.args[0].elt, node.args[0].generators), node)
         # isinstance(x, (A,)) == isinstance(x, A)
         if isinstance(f, ast.Name) and f.id in ("isinstance", "issubclass") and len(node.args) == 2 and isinstance(node.args[1], ast.Tuple) and len(node.args[1].elts) == 1 and not isinstance(node.args[1].elts[0], ast.Starred):
             node.args[1] = node.args[1].elts[0]
@@ -1394,6 +1397,14 @@ def _functions(tree: ast.Module):
     return out
 
 
+def _row_value(v: ast.expr) -> bool:
+    """A table entry that can be written where the loop variable stood: a name / attribute chain / constant, a lambda,
+    or a tuple of such (`(A, B)` as the class argument of isinstance)."""
+    if _alias_expr(v) or isinstance(v, ast.Lambda):
+        return True
+    return isinstance(v, (ast.Tuple, ast.List)) and all(_alias_expr(x) for x in v.elts)
+
+
 def _evidently_bool(e: ast.expr) -> bool:
     if isinstance(e, ast.Compare):
         return True
@@ -1436,8 +1447,21 @@ def _tree_to_expr(body: List[ast.stmt]) -> Optional[ast.expr]:
 
 def expression_bodied(hdef: ast.FunctionDef) -> bool:
     """C12: a helper whose body is a decision tree of returns becomes `return <one expression>` (so that a predicate
-    written with guard clauses can be inlined into the test that calls it)."""
+    written with guard clauses can be inlined into the test that calls it); a generator helper that is one
+    `for x in I: yield E` loop over a plain name / attribute becomes `return (E for x in I)`."""
     body = [s for s in hdef.body if not _docstring(s)]
+    if len(body) == 1 and isinstance(body[0], ast.For) and not body[0].orelse and _alias_expr(body[0].iter):
+        lb = [x for x in body[0].body if not isinstance(x, ast.Pass)]
+        conds = []
+        while len(lb) == 1 and isinstance(lb[0], ast.If) and not [x for x in lb[0].orelse if not isinstance(x, ast.Pass)]:
+            conds.append(lb[0].test)
+            lb = [x for x in lb[0].body if not isinstance(x, ast.Pass)]
+        if len(lb) == 1 and isinstance(lb[0], ast.Expr) and isinstance(lb[0].value, ast.Yield) and lb[0].value.value is not None and not any(isinstance(y, (ast.Yield, ast.YieldFrom)) for y in ast.walk(lb[0].value.value)):
+            doc = [s for s in hdef.body if _docstring(s)]
+            ge = ast.GeneratorExp(lb[0].value.value, [ast.comprehension(body[0].target, body[0].iter, conds, 0)])
+            hdef.body = doc + [ast.copy_location(ast.Return(ge), body[0])]
+            ast.fix_missing_locations(hdef)
+            return True
     if len(body) == 1 and isinstance(body[0], ast.Return):
         return False
     e = _tree_to_expr(body)
